@@ -15,7 +15,7 @@ TEXT = [  # value classes of the quantifier (single-line, no leading/trailing bl
 PCT = {"relname": "100%% pure %(arch)s", "relshort": "P%", "relver": "22", "bpname": "b%", "bpshort": "B", "bpver": "7", "vname": "%s %%"}
 IDS = [{"A": "Server", "B": "Client", "S": "Server", "o": "optional", "T": "Tools", "h": "HighAvailability", "g": "Extras"},
        {"A": "a", "B": "B9", "S": "Z", "o": "optional", "T": "t", "h": "H", "g": "0"}]
-ARCHS = [("x86_64", "xen", "lpae"), ("ppc64le", "p8", "b"), ("aarch64", "X", "y")]
+ARCHS = [("x86_64", "xen", "lpae"), ("ppc64le", "p8", "b"), ("aarch64", "X", "y"), ("i386", "xen-pv", "xen")]   # a platform name may contain dashes
 IMG = {"boot": "images/boot.iso", "kernel": "images/pxeboot/vmlinuz", "xenkernel": "images/pxeboot/vmlinuz-xen", "initrd": "images/Initrd.IMG",
        "stage2": "LiveOS/squashfs.img", "inst": "images/install.img"}
 
@@ -365,7 +365,7 @@ DISCS = {"ALL": ["ALL"], "one": [1], "three": [1, 2, 3], "unsorted": [3, 1, 12]}
 
 def eval_disc(case):
     from productmd.discinfo import DiscInfo
-    import productmd.common as C
+    from . import enums as C
     d = case["disc"]
     rot = case.get("rot", 0)
     di = DiscInfo()
